@@ -7,7 +7,8 @@
 (*    emitted its new-flow trace before that flow trace;                   *)
 (*  - a node is never left more often than it was visited;                 *)
 (*  - a flow's termination is its last trace: afterwards it is never       *)
-(*    announced, started or terminated again;                              *)
+(*    announced, started or terminated again, nor is it the origin of a    *)
+(*    flow trace;                                                          *)
 (*  - flow ids and instance ids never repeat;                              *)
 (*  - the cease-flow trace of the process comes exactly once and after     *)
 (*    every other flow-emitted trace;                                      *)
@@ -39,8 +40,11 @@ Step(s, e) ==
     [] e.ev = "flow" ->
          \* entries after the first are always forked flows: not started yet;
          \* no entry may name a terminated flow
+         \* the flow the trace comes from (its origin) is alive: its termination, if its own
+         \* sequence flow is not taken, comes AFTER the flow trace it sends
          IF /\ \A i \in DOMAIN e.fids : e.fids[i] \notin s.dead
             /\ \A i \in DOMAIN e.fids : i > 1 => e.fids[i] \notin s.born
+            /\ (e.kind # "" => (e.kind \in s.born /\ e.kind \notin s.dead))
          THEN {s} ELSE {}
     [] e.ev = "visit" -> {[s EXCEPT !.visits = Bump(@, e.node)]}
     [] e.ev = "leave" ->
